@@ -2,6 +2,7 @@ package main
 
 import (
 	"fmt"
+	"go/token"
 	"go/types"
 	"strings"
 	"sync"
@@ -99,7 +100,7 @@ func (w *World) verifyFunction(fn *ssa.Function, ct *Contract, tag string, safeA
 			vc.fact(fmt.Sprintf("(< (vref %s) hw!0)", t.S))
 		}
 		if i == 0 && fn.Signature.Recv() != nil {
-			if _, isPtr := p.Type().Underlying().(*types.Pointer); isPtr {
+			if _, isPtr := p.Type().Underlying().(*types.Pointer); isPtr && !comparesWithNil(fn, p) {
 				vc.fact(fmt.Sprintf("(not (= %s 0))", t.S))
 			}
 		}
@@ -237,11 +238,11 @@ func (fr *frame) checkAsserts(anchor string, st *State) {
 	fr.enc.anchorsSeen = append(fr.enc.anchorsSeen, anchor)
 	nth := -1
 	for i0, cl := range ct.Asserts {
-		if cl.Anchor == anchor {
+		if anchorMatches(cl.Anchor, anchor) {
 			nth++ // ordinal among the clauses of this anchor (stable when other anchors get clauses)
 		}
 		i := nth
-		if cl.Anchor != anchor || !fr.enc.tagActive(cl.Tags) {
+		if !anchorMatches(cl.Anchor, anchor) || !fr.enc.tagActive(cl.Tags) {
 			continue
 		}
 		fr.enc.assertHit[i0] = true
@@ -377,6 +378,43 @@ func hasTag(tags []string, t string) bool {
 	for _, x := range tags {
 		if x == t {
 			return true
+		}
+	}
+	return false
+}
+
+// anchorMatches: a clause anchored at "call f:*" applies to every call of f in
+// the function (a call added later gets the obligation too).
+func anchorMatches(pattern, anchor string) bool {
+	if pattern == anchor {
+		return true
+	}
+	if strings.HasSuffix(pattern, ":*") && strings.HasPrefix(anchor, pattern[:len(pattern)-1]) {
+		rest := anchor[len(pattern)-1:]
+		if rest == "" {
+			return false
+		}
+		for _, c := range rest {
+			if c < '0' || c > '9' {
+				return false
+			}
+		}
+		return true
+	}
+	return false
+}
+
+// comparesWithNil: the function tests this parameter against nil itself (a
+// method written to be callable on a nil receiver); the usual assumption that
+// a receiver is not nil is not made then.
+func comparesWithNil(fn *ssa.Function, p *ssa.Parameter) bool {
+	for _, ref := range *p.Referrers() {
+		if b, ok := ref.(*ssa.BinOp); ok && (b.Op == token.EQL || b.Op == token.NEQ) {
+			for _, o := range []ssa.Value{b.X, b.Y} {
+				if c, ok := o.(*ssa.Const); ok && c.IsNil() {
+					return true
+				}
+			}
 		}
 	}
 	return false
